@@ -12,8 +12,8 @@ from ..ref import sqf_interp as I
 PROPERTY = "C15"
 LEVEL = "model_checking"
 VARIANTS = ["asan"]
-RULE = ("histories of 1-2 loaded config files, each a sequence of <=2 (quick) / <=3 (thorough) top-level items (class A/B/C with optional base and "
-        "one of 12 bodies, forward declarations) ; states = distinct reference trees reached, transitions = file loads; for each state all "
+RULE = ("histories of 1-2 loaded config files: quick = one file of <=2 top-level items (class A/B/C with optional base and one of 12 bodies, forward "
+        "declarations); thorough adds 3-item files and two-file histories (2+1 items) over a reduced alphabet (4 bodies) and 1+1 items over the full one; states = distinct reference trees reached, transitions = file loads; for each state all "
         "queries (>> paths x entry names x accessors, inheritsFrom, configHierarchy, count/select) are compared; non-trivial = tree has a base link "
         "or a re-opened class")
 ASSUMPTIONS = [
@@ -59,17 +59,46 @@ def render_item(it):
     return "class %s%s { %s };" % (n, " : " + base if base else "", BODIES[b])
 
 
+def core_items():
+    return [i for i in items() if i[0] == "fwd" or i[2] in (None, "A", "B") or (i[2] == "Missing" and i[3] == "x1") or (i[2] == i[1] and i[3] in ("x1", "empty")) or (i[2] == "C" and i[3] == "x1")]
+
+
+def reduced_items(names=("A", "B", "C")):
+    """Alphabet for longer sequences: the bodies that interact across items (plain value, inherited array, append, delete)."""
+    out = []
+    for i in core_items():
+        if i[1] not in names:
+            continue
+        if i[0] == "fwd" or (i[2] in ("A", "B", None) and i[3] in ("x1", "arr+", "delx")) or (i[2] is None and i[3] == "arr") or (i[2] in ("Missing", i[1]) and i[3] == "x1"):
+            out.append(i)
+    return out
+
+
 def gen(nitems, nfiles):
-    its = items()
     # keep the alphabet tractable: bodies x bases reduced per tier through sampling-free pruning: one base set per name
     def g():
-        core = [i for i in its if i[0] == "fwd" or i[2] in (None, "A", "B") or (i[2] == "Missing" and i[3] == "x1") or (i[2] == i[1] and i[3] in ("x1", "empty")) or (i[2] == "C" and i[3] == "x1")]
+        core = core_items()
         for nf in range(1, nfiles + 1):
             for files in itertools.product(list(itertools.chain.from_iterable(itertools.product(core, repeat=k) for k in range(1, nitems + 1))), repeat=nf):
                 if nf == 2 and (len(files[0]) > 1 and len(files[1]) > 1) and nitems > 1:
                     continue   # two-file histories: at most one multi-item file
                 yield [[list(i) for i in f] for f in files]
     return g
+
+
+def gen_three():
+    red = reduced_items()
+    for seq in itertools.product(red, repeat=3):
+        yield [[list(i) for i in seq]]
+
+
+def gen_two_files():
+    core = core_items()
+    for a, b in itertools.product(core, repeat=2):
+        yield [[list(a)], [list(b)]]
+    red = reduced_items(("A", "B"))
+    for a, b, c in itertools.product(red, repeat=3):
+        yield [[list(a), list(b)], [list(c)]]
 
 
 # ------------------------------------------------------------------ reference tree
@@ -193,6 +222,9 @@ def apply(node, stmts):
                 c = Node(name, node)
                 reopened = False
             if base is not None:
+                if reopened and getattr(c, "base_name", None) is not None and c.base_name.lower() != base.lower():
+                    raise Excluded()    # re-opening with a different base (also when the first one did not resolve)
+                c.base_name = base
                 b = resolve_base(node, base) if not (base.lower() == name.lower() and not reopened) else None
                 if b is None and base.lower() == name.lower() and reopened:
                     b = c
@@ -296,20 +328,40 @@ def queries(root):
     return qs
 
 
+def acyclic_queries():
+    """The base chain of every class ends within a bound: judged for every history, also those whose content is not."""
+    qs = []
+    for p in PATHS:
+        qs.append(("acyclic " + ">>".join(p), "call { private _c = %s; private _n = 0; while {!isNull _c && _n < 40} do { _c = inheritsFrom _c; _n = _n + 1 }; _n < 40 }" % sqf_path(p), True))
+    return qs
+
+
+def termination_queries():
+    qs = []
+    for p in PATHS:
+        for en in ENTRIES:
+            qs.append(("terminates %s>>%s" % (">>".join(p), en), "isNull (%s >> \"%s\")" % (sqf_path(p), en), None))
+            qs.append(("terminates-get %s>>%s" % (">>".join(p), en), "[getNumber (%s >> \"%s\"), getArray (%s >> \"%s\")]" % (sqf_path(p), en, sqf_path(p), en), None))
+    return qs
+
+
 def check(ws, files):
+    texts = [" ".join(render_item(tuple(i)) for i in f) for f in files]
     try:
         root = build_ref(files)
+        qs = queries(root) + acyclic_queries()
     except Excluded:
-        return [], {"n": 0, "nontrivial": 0}
-    texts = [" ".join(render_item(tuple(i)) for i in f) for f in files]
-    qs = queries(root)
+        # content is outside what the statement fixes (eg. a class re-opened with a different base): every lookup still has
+        # to terminate and the base relation has to stay acyclic
+        root = Node("", None)
+        qs = termination_queries() + acyclic_queries()
     steps = [{"op": "vm", "id": 0}] + [{"op": "config", "id": 0, "text": t, "preprocess": False} for t in texts]
     for lab, ex, want in qs:
         steps.append({"op": "sqf", "id": 0, "text": "diag_log str [%s]" % ex})
         steps.append({"op": "exec", "id": 0, "action": "start"})
         steps.append({"op": "exec", "id": 0, "action": "abort"})
     r = ws.call({"mode": "steps", "fork": True, "timeout_ms": 15000, "steps": steps}, variant="asan")
-    nontrivial = 1 if any(n.base or getattr(n, "reopened", False) for n in all_nodes(root)) else 0
+    nontrivial = 1 if any(n.base or getattr(n, "reopened", False) for n in all_nodes(root)) or not root.entries else 0
     info = {"n": 1, "nontrivial": nontrivial, "states": 1, "transitions": len(files), "executions": 1, "queries": len(qs)}
     feat = features(files)
     if r["outcome"] != "ok":
@@ -381,5 +433,6 @@ def spaces(tier):
     if tier == "quick":
         return [Space("one-file", gen(2, 1), check, variant="asan", describe="one file with <=2 top-level items"),
                 ]
-    return [Space("one-file", gen(3, 1), check, variant="asan", describe="one file with <=3 top-level items"),
-            Space("two-files", gen(2, 2), check, variant="asan", describe="two files, <=2 items (one of them single-item)")]
+    return [Space("one-file", gen(2, 1), check, variant="asan", describe="one file with <=2 top-level items over the full item alphabet"),
+            Space("one-file-3-items", gen_three, check, variant="asan", describe="one file with 3 top-level items over the reduced alphabet (bodies: value, array, append, delete; all base kinds)"),
+            Space("two-files", gen_two_files, check, variant="asan", describe="two files: one item each over the full alphabet; two items then one item over the reduced alphabet for names A, B")]
